@@ -400,6 +400,122 @@ def rule_refs(P):
     return r
 
 
+REARM_EXC = {("bufferevent_socket_connect", 0x04): "a new connection attempt: the write event reports the outcome of connect(), whatever the user has enabled (a fresh connection has reported nothing yet)"}
+REARM_UNITS = ["bufferevent", "bufferevent_sock", "bufferevent_pair", "bufferevent_filter", "bufferevent_ratelim"]
+
+
+def rule_rearm(P):
+    """who may switch a direction back on: after EOF/ERROR the library disables the direction (bufev->enabled loses the bit); every path that re-arms through the `enable` slot must
+    ask bufev->enabled first, or be bufferevent_enable itself (which records the user's wish).  The two unsuspend functions and bufferevent_enable are evaluated; any other site
+    needs a dominating test of bufev->enabled for its (constant) direction."""
+    r = Rule("C19-rearm", "K6/K3", "a direction is re-armed through be_ops->enable only if bufev->enabled still has it (a direction that reported EOF/ERROR stays off through suspend/unsuspend cycles)", floor=30)
+    R_, W_ = 0x02, 0x04
+    impls = P.slots().get("bufferevent_ops.enable", set())
+    sites = []
+    for f in P.all_fns:
+        for el in f.calls():
+            if callee_slot(el.e) == "bufferevent_ops.enable" or (callee_name(el.e) in impls and f.name not in impls):
+                sites.append((f, el))
+    evaluated = {"bufferevent_unsuspend_read_": R_, "bufferevent_unsuspend_write_": W_}
+    for name, bit in evaluated.items():
+        f = P.fn(name)
+        bev = ["var", f.params[0][0], "param"]
+        what = f.params[1][0]
+        sus = "bufferevent_private.%s_suspended" % ("read" if bit == R_ else "write")
+        for flags in (0, 0x01, 0x10, 0x11, 0x02):
+            for w in (0x01, 0x10, 0x11):
+                for enabled in (0, R_, W_, R_ | W_):
+                    env = {bev[1]: 1, what: w, "bufev_private": 1, nkey(["fld", bev, "bufferevent.enabled", "->"]): enabled,
+                           nkey(["fld", ["var", "bufev_private", "local"], sus, "->"]): flags, "#armed": ()}
+                    env.update(force_conds(f, lambda b: b.term.get("mac") and any(m in ("EVLOCK_LOCK", "EVLOCK_UNLOCK", "BEV_LOCK", "BEV_UNLOCK") for m in b.term["mac"]) and b.term.get("k") == "if", 1))
+
+                    def hook(el, e_):
+                        if callee_slot(el.e) == "bufferevent_ops.enable" or callee_name(el.e) in impls:
+                            try:
+                                d = evalx(normx(el.e[2][1]), e_, P)
+                            except EvalError:
+                                d = "?"
+                            e_["#armed"] = e_["#armed"] + (d,)
+                            return 0
+                        if callee_name(el.e) in ("upcast", "BEV_UPCAST"):
+                            return 1
+                        return None
+                    for o in run_all(f, (f.entry, 0), env, lambda el: False, P, hook, max_steps=300):
+                        if o.kind == "exit" and o.why == "noreturn":
+                            continue
+                        if o.kind == "unknown":
+                            r.brk("%s: %s" % (name, o.why))
+                            return r
+                        armed = list(o.env["#armed"])
+                        left = flags & ~w
+                        want = [bit] if (left == 0 and enabled & bit) else []
+                        r.inst((name, flags, w, enabled), {"fn": name, "suspend_flags": flags, "flag_dropped": w, "enabled": enabled, "armed": armed})
+                        if armed != want:
+                            r.bad("K6:%s:rearm" % name, "%s:%d" % (f.file, f.line), name,
+                                  "suspend flags %#x, dropping %#x, bufev->enabled=%#x: the enable slot is called with %s, expected %s (a direction is switched back on only when nothing suspends it "
+                                  "any more AND the user still has it enabled - after EOF or ERROR it is not)" % (flags, w, enabled, armed, want))
+    # bufferevent_enable: the slot gets the requested directions minus the suspended ones, after the wish has been recorded
+    g = P.fn("bufferevent_enable")
+    bev = ["var", g.params[0][0], "param"]
+    evp = g.params[1][0]
+    for event in (R_, W_, R_ | W_):
+        for rs in (0, 1):
+            for ws in (0, 0x10):
+                env = {bev[1]: 1, evp: event, "bufev_private": 1, nkey(["fld", bev, "bufferevent.enabled", "->"]): 0,
+                       nkey(["fld", ["var", "bufev_private", "local"], "bufferevent_private.read_suspended", "->"]): rs,
+                       nkey(["fld", ["var", "bufev_private", "local"], "bufferevent_private.write_suspended", "->"]): ws, "#armed": (), "event_debug_logging_mask_": 0}
+
+                def hook2(el, e_):
+                    if callee_slot(el.e) == "bufferevent_ops.enable" or callee_name(el.e) in impls:
+                        try:
+                            d = evalx(normx(el.e[2][1]), e_, P)
+                        except EvalError:
+                            d = "?"
+                        e_["#armed"] = e_["#armed"] + ((d, e_.get(nkey(["fld", bev, "bufferevent.enabled", "->"]))),)
+                        return 0
+                    if callee_name(el.e) in ("bufferevent_incref_and_lock_", "bufferevent_decref_and_unlock_"):
+                        return 0
+                    return None
+                for o in run_all(g, (g.entry, 0), env, lambda el: False, P, hook2, max_steps=300):
+                    if o.kind == "exit" and o.why == "noreturn":
+                        continue
+                    if o.kind == "unknown":
+                        r.brk("bufferevent_enable: %s" % o.why)
+                        return r
+                    want_d = event & ~((R_ if rs else 0) | (W_ if ws else 0))
+                    armed = list(o.env["#armed"])
+                    okk = (armed == [] and want_d == 0) or (len(armed) == 1 and armed[0][0] == want_d and isinstance(armed[0][1], int) and armed[0][1] & event == event)
+                    r.inst(("bufferevent_enable", event, rs, ws), {"fn": "bufferevent_enable", "event": event, "read_suspended": rs, "write_suspended": ws, "armed_with_enabled_word": [list(x) for x in armed]})
+                    if not okk:
+                        r.bad("K6:bufferevent_enable:rearm", "%s:%d" % (g.file, g.line), g.name,
+                              "bufferevent_enable(%#x) with read_suspended=%#x write_suspended=%#x: enable slot calls (directions, enabled word at the call) %s; expected one call with %#x after "
+                              "the request was recorded in bufev->enabled" % (event, rs, ws, armed, want_d))
+    # every other site
+    for f, el in sites:
+        if f.name in evaluated or f.name == "bufferevent_enable":
+            r.inst(("site", f.name, el.n), {"fn": f.name, "site": el.where(), "decided_by": "evaluation"})
+            continue
+        try:
+            d = evalx(normx(el.e[2][1]), {}, P)
+        except Exception:
+            d = None
+        ok = False
+        if isinstance(d, int) and d in (R_, W_):
+            for c, t, b in f.guards_at(el.bid):
+                c2, t2 = negate_truth(c, t)
+                if t2 and any(is_e(q, "bin") and q[1] == "&" and fields_of(strip(q[2]))[-1:] == ["bufferevent.enabled"] and is_e(strip(q[3]), "int") and strip(q[3])[1] & d for q in walk(c2)):
+                    ok = True
+        exc = REARM_EXC.get((f.name, d))
+        r.inst(("site", f.name, el.n), {"fn": f.name, "site": el.where(), "direction": d, "guarded_by_enabled": ok, "exception": exc})
+        if not ok and not exc:
+            r.bad("K3:%s:rearm-unasked" % f.name, el.where(), f.name,
+                  "the enable slot is called for direction %s without a test of bufev->enabled: a direction the library switched off after EOF/ERROR (or the user disabled) is armed again, and the "
+                  "condition is reported a second time" % ({R_: "EV_READ", W_: "EV_WRITE"}.get(d, show(el.e[2][1]))))
+    if len(sites) < 3:
+        r.brk("only %d call sites of the enable slot found" % len(sites))
+    return r
+
+
 def run(ctx, config):
     P = ctx.prog(UNITS, config)
-    return [rule_runners(P), rule_fresh(P), rule_run(P), rule_free_connect(P), rule_connect_once(P), rule_refs(P)]
+    return [rule_runners(P), rule_fresh(P), rule_run(P), rule_free_connect(P), rule_connect_once(P), rule_refs(P), rule_rearm(ctx.prog(REARM_UNITS, config))]
